@@ -197,6 +197,23 @@ func (x *Exec) callStatic(fr *Frame, st *State, site ssa.Instruction, callee *ss
 		x.havocCall(fr, st, site, callee.Signature, true, k)
 		return
 	}
+	if pkgPath == "math/big" {
+		// every method of *big.Int / *big.Float dereferences its receiver and its *big operands:
+		// a nil one panics, so it is an obligation of the caller rather than part of the "does not panic" default
+		for i, a := range args {
+			pt, ok := a.T.Underlying().(*types.Pointer)
+			if !ok || len(a.C) == 0 {
+				continue
+			}
+			if tn, ok := pt.Elem().(*types.Named); !ok || tn.Obj().Pkg() == nil || tn.Obj().Pkg().Path() != "math/big" {
+				continue
+			}
+			x.nilCheck(fr, st, a, site.Pos(), fmt.Sprintf("big.%s.arg%d", callee.Name(), i))
+		}
+		x.assumeNote(fmt.Sprintf("external %s: result unconstrained, reads but does not write caller-visible memory, panics only on a nil *big operand (obligation of the caller)", oname))
+		x.havocCall(fr, st, site, callee.Signature, false, k)
+		return
+	}
 	x.assumeNote(fmt.Sprintf("external %s: result unconstrained, reads but does not write caller-visible memory, does not panic", oname))
 	x.havocCall(fr, st, site, callee.Signature, false, k)
 }
